@@ -20,6 +20,12 @@ CLAIMED = {
          "write aborts) on dyadic streams compared bin by bin exactly, plus generic doubles away from bin edges.",
          "Lean kernel + three standard axioms; harness/driver; IEEE rounding not modelled (exact stream avoids it); the cast guard |bin|<9e18 is modelled.",
          "6/C13"),
+ "C20": ("Lean 4 proof over tables regenerated from the source on every run (translator): generic there-and-back/transitivity algebra + "
+         "`decide +kernel` over the whole finite table for non-zero entries, derived-unit quotients, CODATA/SI agreement, cross-place agreement, element data",
+         "The quantifier is a finite table, enumerated exhaustively inside the kernel; unitconverter.h / constants.h / elements.cc are "
+         "re-translated on every run and the translation is validated against the values the real code returns for every pair, constant and element.",
+         "Lean kernel + three standard axioms; translator tools/translate/tr_c20.py; hand-typed CODATA 2018/SI/IUPAC references; 4 digits read as rel 5e-4.",
+         "6/C20"),
 }
 REASONS = {}
 
